@@ -31,8 +31,13 @@ def _stationary(real, flags):
     """copy positions of the previous pose where flagged (zero reference distances)"""
     P = real.P.copy()
     for i in range(1, real.n):
-        if flags[i % len(flags)]:
+        f = flags[i % len(flags)]
+        if f is True:
             P[i] = P[i - 1]
+        elif f == "creep":
+            # almost stationary: a tiny but non-zero reference distance (such pairs are NOT skipped by the ratio relation)
+            P[i] = P[i - 1]
+            P[i, 0] = P[i, 0] + 3e-9 * (abs(P[i, 0]) + 1.0) if abs(P[i, 0]) < 1e-3 else np.nextafter(P[i, 0], np.inf)
     return trajgen.Real(P, real.Rs(), real.mode, real.T)
 
 
@@ -298,7 +303,7 @@ st_delta = st.fixed_dictionaries({
 st_opts = st.fixed_dictionaries({
     "unit": st.sampled_from(["f", "f", "m", "r", "d"]), "delta_spec": st_delta, "all_pairs": st.booleans(),
     "from_ref": st.booleans(), "relation": st.sampled_from(rm.RELATIONS), "tol": st.sampled_from([0.0, 0.1, 0.5]),
-    "still": st.lists(st.booleans(), min_size=1, max_size=6)})
+    "still": st.lists(st.sampled_from([False, False, True, "creep"]), min_size=1, max_size=6)})
 st_M = st.fixed_dictionaries({"rot": gen.st_rotation_generic, "t": st.lists(gen.unit_f, min_size=3, max_size=3),
                               "mag": gen.log_uniform(-1, 3)})
 
